@@ -397,7 +397,7 @@ def check_state(ctx, hist, T, S, R, lab, extra=None):
     """Invariant after a write.  Returns True if both objects agree with the reference."""
     ok = True
     want = R.a if R.a is not None else np.zeros(())
-    info = dict(hist, nlists=_nlists(lab), growth=extra)
+    info = dict(hist, check="hist", nlists=_nlists(lab), growth=extra)
     for nm, X in (("tensor", T), ("sptensor", S)):
         op = nm + ".__setitem__"
         var = describe(lab)
@@ -420,6 +420,13 @@ def check_state(ctx, hist, T, S, R, lab, extra=None):
             ctx.fail(op, "wrong_value", f"got={np.asarray(got).tolist()} want={want.tolist()} after {lab}", variant=var, case=info)
             ok = False
     return ok
+
+
+def _adv_split(key):
+    """NumPy moves the 'advanced' (int / list) axes to the front when they are separated by a slice."""
+    adv = [not (isinstance(it, list) and it[0] == "s") for it in key]
+    idx = [i for i, a in enumerate(adv) if a]
+    return bool(idx) and (idx[-1] - idx[0] + 1 != len(idx))
 
 
 def _nlists(lab):
@@ -463,24 +470,34 @@ def check_reads(ctx, hist, T, S, R):
     allsubs = np.array(cl, dtype=int).reshape(n, N)
     for nm, X in (("tensor", T), ("sptensor", S)):
         op = nm + ".__getitem__"
+        seen_cls = set()
 
         def rd(f, want, variant, key=None, shape_too=False):
             ctx.tick()
-            info = dict(hist, read=[variant, key])
+            nl_ = 0 if key is None else sum(1 for it in key if isinstance(it, list) and it[0] == "l")
+            info = dict(hist, check="hist", read=[variant, key], nlists=nl_,
+                        adv_split=bool(key is not None and nl_ >= 1 and _adv_split(key)))
+            if (variant, info["adv_split"]) in seen_cls:
+                return  # one report per read class and state keeps the failure volume bounded
+
             try:
                 got = f()
             except Exception as e:  # noqa: BLE001
+                seen_cls.add((variant, info["adv_split"]))
                 ctx.fail(op, exc_symptom(e), short_tb(e), variant=variant, case=info)
                 return
             try:
                 g = np.asarray(O.value_of(got), dtype=float)
             except Exception as e:  # noqa: BLE001
+                seen_cls.add((variant, info["adv_split"]))
                 ctx.fail(op, "malformed_result", f"{type(e).__name__}: {e}", variant=variant, case=info)
                 return
             w = np.asarray(want, dtype=float)
             if g.size != w.size or not rm.same(np.reshape(g, -1, order="F"), np.reshape(w, -1, order="F")):
+                seen_cls.add((variant, info["adv_split"]))
                 ctx.fail(op, "wrong_value", f"key={key} got={g.tolist()} want={w.tolist()}", variant=variant, case=info)
             elif shape_too and w.ndim > 0 and hasattr(got, "shape") and O.pyshape(got.shape) != w.shape:
+                seen_cls.add((variant, info["adv_split"]))
                 ctx.fail(op, "wrong_shape", f"key={key} got shape {got.shape} want {w.shape}", variant=variant, case=info)
 
         for c in cl:
@@ -537,7 +554,7 @@ def expand(hist, ctx):
         ok = True
         for nm, e in errs.items():
             ctx.fail(nm + ".__setitem__", exc_symptom(e), short_tb(e) + f" on {lab}", variant=describe(lab),
-                     case=dict(nh, nlists=_nlists(lab), growth=(R.shape != before)))
+                     case=dict(nh, check="hist", nlists=_nlists(lab), growth=(R.shape != before)))
             ok = False
         if ok:
             ok = check_state(ctx, nh, T, S, R, lab, extra=(R.shape != before))
@@ -577,7 +594,7 @@ def run_case(case, ctx):
         ctx.tick()
         for nm, e in errs.items():
             ctx.fail(nm + ".__setitem__", exc_symptom(e), short_tb(e) + f" on {lab}", variant=describe(lab),
-                     case=dict(prefix, nlists=_nlists(lab), growth=(R.shape != before)))
+                     case=dict(prefix, check="hist", nlists=_nlists(lab), growth=(R.shape != before)))
         if errs or not check_state(ctx, prefix, T, S, R, lab, extra=(R.shape != before)):
             return
     check_reads(ctx, hist, T, S, R)
